@@ -10,6 +10,7 @@ import (
 	_ "verifharness/lru"
 	_ "verifharness/adapter"
 	_ "verifharness/immunity"
+	_ "verifharness/crash"
 	_ "verifharness/shardid"
 )
 
